@@ -174,6 +174,9 @@ def check(db, rep):
     # ------------------------------------------------------------------ r5
     r10 = rep.rule('r10', 'ADMISSIBILITY-TOTAL: the admissibility test of an equation table answers yes or no - every optional::value() on its paths (RSEquationProcessor methods reachable from Evaluate) is dominated by has_value() on the same object, so an inadmissible table cannot make it throw', 1)
     _admissibility_total(db, r10)
+    r12 = rep.rule('r12', 'EXECUTE-FROM-CLEAN-STATE: the equation processor lives as long as its schema; every member it fills while executing a table (the returned translation, the name substitutions, the table pointer) is reset on every path '
+                          'before the first write of that execution - a second Equate never returns pairs of the first', 2)
+    _clean_state(db, r12)
     r11 = rep.rule('r11', 'HANDOVER-RECREATED: an operation that hands its precreated result over to the caller (return std::move(member)) never dereferences that member again before it is '
                           'created anew or tested: executing an operation twice answers, it does not crash', 2)
     _handover_recreated(db, r11)
@@ -363,16 +366,10 @@ def merge_evaluated(db, rule):
                 next_uid[0] += 1
                 return Obj(uid=next_uid[0], alias=new_alias.encode())
             if last == 'ReserveAlias' and a():
-                nm = bytes(a()[-1]).decode()
-                if nm not in used:
-                    used.add(nm)
-                    reserved.add(nm)
+                used.add(bytes(a()[-1]).decode())             # the registry is a set of taken names: reserving a taken name changes nothing ...
                 return None
             if last == 'FreeAlias' and a():
-                nm = bytes(a()[-1]).decode()
-                if nm in reserved:
-                    reserved.discard(nm)
-                    used.discard(nm)
+                used.discard(bytes(a()[-1]).decode())         # ... and freeing a name removes it, whoever had taken it
                 return None
             if last == 'ExtractUGlobals' and n.get('args'):
                 v = ev(n['args'][0])
@@ -478,6 +475,11 @@ def merge_evaluated(db, rule):
                     return 'merging %s into a schema holding %s: the copy of %s (%s) has the %s mentions %s, every mention renamed once gives %s' % (
                         [(a_, m_) for a_, m_ in src], sorted(dest_aliases), bytes(rec['alias']).decode(), bytes(got['alias']).decode(), f,
                         [bytes(x).decode() for x in got[f]], [w.decode() for w in want])
+        # the registry of taken names still holds the alias of every constituent (a name freed by mistake would be handed out a second time)
+        lost = sorted(a_ for a_ in [bytes(r['alias']).decode() for r in dest_recs] + [bytes(r['alias']).decode() for r in store.values()] if a_ not in used)
+        if lost:
+            return ('merging %s into a schema holding %s: afterwards the name registry no longer holds %s, the alias of a living constituent (a name that was reserved although it is taken is freed with the reservations): '
+                    'the next insertion is given the same alias' % ([(a_, m_) for a_, m_ in src], dest, lost))
         # a mention that denotes no constituent (of its own schema) must not be given one by a generated name
         src_aliases = {bytes(r['alias']) for r in src_recs.values()}
         fresh = {bytes(r['alias']) for r in store.values()} - {a_.encode() for a_ in dest_aliases}
@@ -502,6 +504,7 @@ def merge_evaluated(db, rule):
         ([('X1', []), ('D1', ['X2'])], [('X2', ['X2']), ('X1', ['X2'])]),      # ... and the merged schema has an X2 of its own
         ([('X1', []), ('D1', {'definition': ['X1'], 'term': ['X2'], 'convention': ['X2']})], [('X1', ['X1'])]),      # only the texts of the receiving schema mention the erased X2
         (['X1'], [('X1', {'definition': ['X1'], 'text': ['X2']})]),            # a text reference of the merged schema dangles
+        (['X1', 'X2'], [('D1', {'definition': ['X1'], 'term': ['X2']})]),      # the merged schema mentions names only the receiving one defines
     ]
     bad = None
     try:
@@ -566,6 +569,7 @@ def duplicates_evaluated(db, rule):
         recs = {i + 1: Obj(__cls__='cst', uid=i + 1, alias=a.encode(), mentions=[m.encode() for m in ms]) for i, (a, ms) in enumerate(csts)}
         order = _LiveList(sorted(recs))
         tr = {}
+        original_mentions = {u: [bytes(x) for x in r['mentions']] for u, r in recs.items()}
 
         def on_call(it, fn, n, env):
             cs = n.get('cs') or ''
@@ -628,6 +632,17 @@ def duplicates_evaluated(db, rule):
             if v_ not in order:
                 return 'eliminating duplicates of %s returns the translation %s: %s is mapped to %s, which was itself erased later (the survivors are %s)' % (
                     [(a_, ms) for a_, ms in csts], {name(x): name(y) for x, y in m.items()}, name(k_), name(v_), [name(x) for x in order])
+        # every mention of an erased duplicate now names its survivor, and nothing else was renamed
+        image = {bytes(recs[u]['alias']): bytes(recs[m[u]]['alias']) for u in erased}
+        for uid in order:
+            want = [image.get(x, x) for x in original_mentions[uid]]
+            for _ in range(len(recs)):
+                want = [image.get(x, x) for x in want]
+            got = [bytes(x) for x in recs[uid]['mentions']]
+            if got != want:
+                return 'eliminating duplicates of %s: %s mentioned %s and now mentions %s; with %s it should mention %s' % (
+                    [(a_, ms) for a_, ms in csts], name(uid), [x.decode() for x in original_mentions[uid]], [x.decode() for x in got],
+                    ', '.join('%s merged into %s' % (k_.decode(), v_.decode()) for k_, v_ in image.items()), [x.decode() for x in want])
         return None
     cases = [
         [('X1', []), ('D1', ['X1']), ('D2', ['X1'])],
@@ -1023,3 +1038,94 @@ def _handover_recreated(db, rule):
                 rule.ok(inst, 'every dereference of the handed-over member follows its creation or a non-null test', '%s:%d' % (f.file, f.line))
     if not n_methods:
         rule.broken('no operation hands a member over with return std::move(...): the rule has lost its sites')
+
+
+def _clean_state(db, rule):
+    from engine.cfgq import paths_avoiding, success_exits
+    ex = [f for f in db.methods_of(EP) if f.name.endswith('::Execute') and f.has_cfg()]
+    if len(ex) != 1:
+        rule.broken('anchor vanished: RSEquationProcessor::Execute')
+        return
+    ex = ex[0]
+    rec = db.records.get(EP) or {}
+    fields = [fl['name'] for fl in rec.get('fields', []) if not fl['type'].endswith('&') and 'RSForm' not in fl['type']]
+    ms = {f.name + '#' + (f.rec.get('mn') or ''): f for f in db.methods_of(EP) if f.has_cfg()}
+    WR = ('Insert', 'insert', 'emplace', 'emplace_back', 'push_back', 'SuperposeWith', 'SubstituteValues', 'insert_or_assign', 'try_emplace', 'operator[]')
+    RS = ('clear', 'Clear', 'reset')
+
+    def member(f, n):
+        n = f.strip(n)
+        if n is not None and n['k'] == 'MemberExpr' and n.get('mk') == 'field':
+            kids = f.children(n)
+            if kids and (f.strip(kids[0]) or {}).get('k') == 'CXXThisExpr':
+                return n.get('member')
+        return None
+
+    def direct(f, fld, names):
+        out = []
+        for c in f.calls():
+            last = (c.get('cs') or '').split('::')[-1]
+            if c['k'] == 'CXXMemberCallExpr' and last in names and 'obj' in c and member(f, f.stmts[c['obj']]) == fld:
+                out.append(f.position_of(c))
+            if c['k'] == 'CXXOperatorCallExpr' and c.get('op') == '=' and c.get('args') and member(f, f.stmts[c['args'][0]]) == fld and 'clear' in names:
+                out.append(f.position_of(c))
+        for b in f.walk():
+            if b['k'] == 'BinaryOperator' and b.get('op') == '=' and member(f, f.children(b)[0]) == fld and 'clear' in names:
+                out.append(f.position_of(b))
+        return [p for p in out if p is not None]
+    memo_r, memo_w = {}, {}
+
+    def must_reset(f, fld, depth=0):
+        key = (f.name, f.rec.get('mn'), fld)
+        if key in memo_r:
+            return memo_r[key]
+        memo_r[key] = False
+        sites = direct(f, fld, RS)
+        if depth < 4:
+            for c in f.calls():
+                for t in db.callees(f, c):
+                    if t.cls == EP and t is not f and t.has_cfg() and must_reset(t, fld, depth + 1):
+                        p = f.position_of(c)
+                        if p is not None:
+                            sites.append(p)
+        r = bool(sites) and not paths_avoiding(f, [f.graph()[1]], sites, success_exits(f, failure_literals=()) + [(q, '') for q, _ in f.return_sites()])
+        memo_r[key] = r
+        return r
+
+    def may_write(f, fld, depth=0):
+        key = (f.name, f.rec.get('mn'), fld)
+        if key in memo_w:
+            return memo_w[key]
+        memo_w[key] = False
+        r = bool(direct(f, fld, WR))
+        if not r and depth < 4:
+            for c in f.calls():
+                for t in db.callees(f, c):
+                    if t.cls == EP and t is not f and t.has_cfg() and may_write(t, fld, depth + 1):
+                        r = True
+        memo_w[key] = r
+        return r
+    n_f = 0
+    for fld in fields:
+        if not may_write(ex, fld):
+            continue
+        n_f += 1
+        resets = direct(ex, fld, RS)
+        writes = direct(ex, fld, WR)
+        for c in ex.calls():
+            for t in db.callees(ex, c):
+                if t.cls == EP and t is not ex and t.has_cfg():
+                    p = ex.position_of(c)
+                    if p is None:
+                        continue
+                    if must_reset(t, fld):
+                        resets.append(p)
+                    elif may_write(t, fld):
+                        writes.append(p)
+        if writes and paths_avoiding(ex, [ex.graph()[1]], resets, [(w, '') for w in writes]):
+            rule.violation('Execute:' + fld, '%s:%d' % (ex.file, ex.line), 'the member `%s` is filled while a table is executed and no path of Execute resets it first: the processor is a member of the schema, so the second Equate on the same schema '
+                           'starts from what the first left (the returned translation still maps the constituent removed by the first table)' % fld)
+        else:
+            rule.ok('Execute:' + fld, 'reset before the first write of an execution', '%s:%d' % (ex.file, ex.line))
+    if not n_f:
+        rule.broken('RSEquationProcessor::Execute writes no member: the rule has lost its sites')
